@@ -319,6 +319,54 @@ def xliqtLine (s : HistState) (t : List String) : Option String :=
                     pure s!"ok {a.1} {b.1} {da} {db}"
   | _ => none
 
+/-- `H xrew kind ver idx id authMode value feeA(3) feeB(3)`: set_reward_emissions / collect_reward(_v2) /
+    collect_protocol_fees(_v2) on the current state (read-only); vaults as the fixture funds them -/
+def xrewLine (s : HistState) (t : List String) : Option String :=
+  match t with
+  | [kind, ver, idx, id, auth, value, bA, mA, _fA3, bB, mB, _fB3] => do
+    let ver ← ver.toNat?
+    let idx ← idx.toNat?
+    let id ← id.toNat?
+    let auth ← auth.toNat?
+    let value ← value.toNat?
+    let fA ← parseTFee bA mA
+    let fB ← parseTFee bB mB
+    let (fA, fB) := if ver = 2 then (fA, fB) else (none, none)
+    let cap := U64_MAX / 4
+    let r := s.pool.rewards.getD idx {}
+    if idx ≥ 3 || (kind != "cproto" && !r.initialized) then pure "err RewardNotInitialized"
+    else if kind == "emis" then
+      if auth = 2 then pure "err AccountNotSigner"
+      else if auth = 1 then pure "err ConstraintAddress"
+      else
+        let vault := min (s.rewardVaults.getD idx 0) cap
+        match checkedMulShiftRightRoundUpIf 86400 value false with
+        | .error e => pure ("err " ++ e.name)
+        | .ok perDay =>
+          if vault < perDay then pure "err RewardVaultAmountInsufficient"
+          else
+            match nextRewardInfos s.pool s.now with
+            | .error e => pure ("err " ++ e.name)
+            | .ok _ => pure "ok"
+    else if kind == "crew" then
+      match posGet s.positions id with
+      | none => pure "err NoSuchPosition"
+      | some pos =>
+        if auth = 2 then pure "err AccountNotSigner"
+        else if auth = 1 then pure "err MissingOrInvalidDelegate"
+        else
+          let owed := (pos.rewards.getD idx {}).owed
+          let vault := min (s.rewardVaults.getD idx 0) cap
+          let transfer := min owed vault
+          pure s!"ok {transfer} {(excludedAmount fA transfer).1} {owed - transfer}"
+    else if kind == "cproto" then
+      if auth = 2 then pure "err AccountNotSigner"
+      else if auth = 1 then pure "err ConstraintAddress"
+      else if s.pool.pfA > min s.vaultA cap || s.pool.pfB > min s.vaultB cap then pure "err Code(1)"
+      else pure s!"ok {(excludedAmount fA s.pool.pfA).1} {(excludedAmount fB s.pool.pfB).1} {s.pool.pfA} {s.pool.pfB}"
+    else none
+  | _ => none
+
 /-- net movement of one token in a reposition: (amount on the owner's side, its transfer fee, from owner?) -/
 def repoNet (f : Option TFee) (dec inc : Nat) : R (Nat × Nat × Bool) :=
   if dec > inc then
